@@ -163,12 +163,14 @@ class LevelLimit(TreeLevelCandidatesFilter):
             level_candidates.sort(reverse=True)
             currently_active_level_below = len([deme for deme in tree.levels[level + 1] if deme.is_active])
             if currently_active_level_below + len(level_candidates) > self.limit:
-                cutoff = self.limit - currently_active_level_below
+                cutoff = max(self.limit - currently_active_level_below, 0)
                 cutoff_individual = level_candidates[cutoff]
+                # Only the candidates ranked above the cut-off can be kept (and of those only the ones strictly
+                # better than the cut-off individual), so the free slots are never exceeded - also when the
+                # ordering is not total (NaN fitness values compare by coin flip).
+                kept = {id(ind) for ind in level_candidates[:cutoff] if ind > cutoff_individual}
                 for deme in level_demes:
-                    candidates[deme].individuals = [
-                        ind for ind in candidates[deme].individuals if ind > cutoff_individual  # type: ignore
-                    ]
+                    candidates[deme].individuals = [ind for ind in candidates[deme].individuals if id(ind) in kept]
         return candidates
 
 
